@@ -2373,6 +2373,12 @@ pub(crate) mod convert {
             let mut entry_ids = FnvHashMap::default();
             entry_ids.insert(root_offset, (unit_id, unit.root()));
             for offset in offsets {
+                // Only the entries of this unit are converted. An entry in another
+                // unit of the split section must not be reserved, so that a reference
+                // to it is an error during conversion instead of when writing.
+                if offset.to_unit_offset(&split_unit.header).is_none() {
+                    continue;
+                }
                 entry_ids.insert(offset, (unit_id, unit.reserve()));
             }
 
